@@ -16,7 +16,7 @@ NAME=${DEMO%.rs}
 cargo nextest run --workspace --no-fail-fast --offline 2>&1 | tail -2
 echo "-- demo WITH change:"
 cargo run -q --offline -p $CRATE --example $NAME > /dev/null 2>&1; echo "exit=$?"
-git stash -q -- crates/*/src 2>/dev/null || git checkout -- crates/*/src
+git apply -R /verif/seeded/$ID/patch.diff
 echo "-- demo WITHOUT change:"
 cargo run -q --offline -p $CRATE --example $NAME > /dev/null 2>&1; echo "exit=$?"
 } > $OUT 2>&1
